@@ -1,6 +1,93 @@
-(* Properties_C19.v — C19 (placeholder while the pipeline is brought up). *)
+(* Properties_C19.v — C19: SMP workers share cache entries consistently.
+   Statements only; proofs live in SmpProofs.v.
+
+   Vocabulary (SmpModel.v):
+     pinit n                    one Ipc::StoreMap anchor (Transients, MemStore or rock map entry of a key), n processes
+     prun s sched               processes call, in ANY order, MOpenR (openForReading), MOpenOrCreate
+                                (openOrCreateForReading), MOpenW (openForWriting + setKey/set; the writer's id is used
+                                as the version of what it writes), MStartApp, MAppendData k, MCloseW, MSwitchWR,
+                                MAbortW, MCloseR, MCloseRFree (closeForReadingAndFreeIdle), MFree (freeEntry),
+                                MFreeByKey; calls that are illegal for the caller's current holding are skipped
+     ObsOpenR p v n complete    process p's openForReading succeeded and saw version v, n bytes, Anchor::complete()
+     shm_write / copy_from_shm  MemStore::copyToShm (copyToShmSlice, nextAppendableSlice) / MemStore::copyFromShm
+                                on a chain of slices of psz bytes *)
 Require Import SquidV.Bytes SquidV.RwlockModel SquidV.SmpModel SquidV.SmpProofs.
 Local Open Scope N_scope.
-Theorem C19_lock_unlock_shared : forall l l', lockShared l = (l', true) -> unlockShared l' = l.
-Proof. exact lock_unlock_shared. Qed.
-Print Assumptions C19_lock_unlock_shared.
+
+(* --- the lock counters of the anchor equal its holders in every reachable state (any number of processes, any order
+       of method calls) --- *)
+Theorem C19_anchor_lock_counts_holders : forall n sched, pinv (fst (prun (pinit n) sched)).
+Proof. intros. apply prun_inv. apply pinv_init. Qed.
+Print Assumptions C19_anchor_lock_counts_holders.
+
+Theorem C19_at_most_one_writer : forall n sched p q, let s := fst (prun (pinit n) sched) in
+  p <> q -> isW (hget (ph s) p) = true -> isW (hget (ph s) q) = true -> False.
+Proof. exact pop_one_writer. Qed.
+Print Assumptions C19_at_most_one_writer.
+
+(* --- no worker reads an entry that another worker is still writing as if it were complete: every successful
+       openForReading, in every run, saw an entry that is in use and not marked for deletion, and that is EITHER
+       reported complete, in which case no process holds it for writing, OR reported incomplete, in which case exactly
+       the process whose version it carries holds it in append mode (the reader gets a prefix and knows it) --- *)
+Theorem C19_shared_read_is_complete_or_appending_prefix : forall n sched, all_obs_sound (pinit n) sched.
+Proof. exact pop_every_open_sound. Qed.
+Print Assumptions C19_shared_read_is_complete_or_appending_prefix.
+
+Theorem C19_readers_only_beside_appending_writer : forall n sched p q, let s := fst (prun (pinit n) sched) in
+  hget (ph s) p = HRead -> isW (hget (ph s) q) = true -> hget (ph s) q = HAppend.
+Proof. exact pop_reader_only_with_appending_writer. Qed.
+Print Assumptions C19_readers_only_beside_appending_writer.
+
+(* --- invalidated entries are not opened: after freeEntry / freeEntryByKey by any process in any reachable or
+       unreachable state, whatever the others hold, no openForReading succeeds until some process creates the entry
+       anew (openForWriting / openOrCreateForReading) --- *)
+Theorem C19_purged_not_opened : forall s p o sched,
+  p < lenN (ph s) -> (o = MFree \/ o = MFreeByKey) ->
+  forallb (fun x => negb (creates (snd x))) sched = true ->
+  forall ob, In ob (snd (prun (fst (pstep1 s p o)) sched)) -> ob = ObsNone.
+Proof. exact pop_purged_not_opened. Qed.
+Print Assumptions C19_purged_not_opened.
+
+(* --- shared pages, any page size: what the writer has copied is exactly the object so far ... --- *)
+Theorem C19_copy_to_shared_pages_exact : forall psz c offset obj, 0 < psz -> concat c = takeN offset obj ->
+  exists c', shm_write psz c offset obj = Some c' /\ chain_bytes c' = obj.
+Proof. exact shm_write_ok. Qed.
+Print Assumptions C19_copy_to_shared_pages_exact.
+
+(* ... a reader holding any prefix of the chain's bytes gets, by one copyFromShm pass, exactly the chain's bytes
+   (slices of any sizes: page boundaries do not matter) ... *)
+Theorem C19_copy_from_shared_pages_exact : forall c have rest,
+  chain_bytes c = have ++ rest -> copy_from_shm c 0 have = chain_bytes c.
+Proof. exact shm_read_ok. Qed.
+Print Assumptions C19_copy_from_shared_pages_exact.
+
+(* ... so for every object, every page size and every split point k: the writer delivers k bytes, a reader in another
+   worker looks (gets exactly those k bytes), the writer delivers the rest, the reader looks again: identical bytes *)
+Theorem C19_reader_gets_prefix_then_identical_bytes : forall psz obj k, 0 < psz ->
+  exists c1 c2,
+    shm_write psz [] 0 (takeN k obj) = Some c1 /\
+    shm_write psz c1 (lenN (takeN k obj)) obj = Some c2 /\
+    copy_from_shm c1 0 [] = takeN k obj /\
+    copy_from_shm c2 0 (copy_from_shm c1 0 []) = obj.
+Proof. exact shm_two_looks. Qed.
+Print Assumptions C19_reader_gets_prefix_then_identical_bytes.
+
+Theorem C19_method_level_lock_is_C54_model_bounded : forall r w a, r <= 4 -> bridge_ok (mkL r w a) = true.
+Proof. exact lock_bridge_bounded. Qed.
+Print Assumptions C19_method_level_lock_is_C54_model_bounded.
+
+(* --- non-vacuity --- *)
+Example C19_ex_reader_sees_appending_prefix :
+  snd (prun (pinit 3) [(0, MOpenW); (0, MStartApp); (0, MAppendData 500); (1, MOpenR); (0, MAppendData 300); (0, MCloseW); (2, MOpenR)])
+  = [ObsNone; ObsNone; ObsNone; ObsOpenR 1 0 500 false; ObsNone; ObsNone; ObsOpenR 2 0 800 true].
+Proof. vm_compute. reflexivity. Qed.
+Example C19_ex_exclusive_writer_not_readable :
+  snd (prun (pinit 2) [(0, MOpenW); (0, MAppendData 500); (1, MOpenR)]) = [ObsNone; ObsNone; ObsNone].
+Proof. vm_compute. reflexivity. Qed.
+Example C19_ex_purge_then_no_open :
+  snd (prun (pinit 3) [(0, MOpenW); (0, MAppendData 9); (0, MCloseW); (1, MOpenR); (2, MFree); (0, MOpenR); (1, MCloseR); (0, MOpenR)])
+  = [ObsNone; ObsNone; ObsNone; ObsOpenR 1 0 9 true; ObsNone; ObsNone; ObsNone; ObsNone].
+Proof. vm_compute. reflexivity. Qed.
+Example C19_ex_pages : forall x, In x [1; 2; 3; 4; 5; 6; 7] ->
+  option_map (map lenN) (shm_write 3 [] 0 [1; 2; 3; 4; 5; 6; 7]) = Some [3; 3; 1].
+Proof. intros. vm_compute. reflexivity. Qed.
